@@ -120,4 +120,35 @@ theorem set_caller_hash_process (ver : Int) (st : Rec) (v : Int) (hv : inRange 4
     ∃ st', UdpTxEndPack.process ver (setMcallerUrlHash v st) = some st' ∧ st' "McallerUrlHash" = .int v :=
   Udp.setCallerHash_process ver st v hv ha
 
+/-! ### the masking families over their whole range (round 8, seed C07-r8-2)
+
+`Write` / `Read` of every pack take the Go branch for every version above 50000 and the PHP branch for
+every version up to 20000; `Process()` must mask on exactly those versions — not only from the first
+gate of the family (50100, 10101 …) on. -/
+
+/-- `Process()` masks at a version iff the family ladder of `Write` / `Read` puts it in the Go family
+    (above 50000 — also 50001 … 50099, below the first Go gate) or the PHP family (up to 20000) -/
+theorem mask_family_iff (ver : Int) : masksAt ver = true ↔ (50000 < ver ∨ ver ≤ 20000) := by
+  unfold masksAt
+  simp only [Bool.or_eq_true, decide_eq_true_eq, gt_iff_lt]
+
+/-- the whole families: every Go and every PHP version masks -/
+theorem mask_whole_families (ver : Int) (h : 50000 < ver ∨ ver ≤ 20000) : masksAt ver = true :=
+  (mask_family_iff ver).2 h
+
+/-- **Process() never leaves a password value, for every version of the Go and PHP families** as the
+    family ladder delimits them (the hypothesis is on the version itself, not on `masksAt`) -/
+theorem process_no_password_whole_families (t : PackT)
+    (ht : t = UdpTxSqlPack ∨ t = UdpTxSqlParamPack ∨ t = UdpTxDbcPack)
+    (ver : Int) (hfam : 50000 < ver ∨ ver ≤ 20000) (st : Rec) (tok : Tok) (rest : List (Nat × Tok))
+    (htok : PlainTok tok) (hrest : ∀ cu ∈ rest, (cu.1 = 32 ∨ cu.1 = 59) ∧ PlainTok cu.2)
+    (hd : st "Dbc" = .str (renderFlat tok rest)) :
+    ∃ st', t.process ver st = some st' ∧ ∃ b, st' "Dbc" = .str b ∧ leakFree b :=
+  process_no_password t ht ver st tok rest htok hrest (mask_whole_families ver hfam) hd
+
+/-- non-vacuity: the lowest Go version, an interior one below the gate 50100, the lower neighbour of
+    that gate, the top of the PHP family; and the other families do not mask -/
+example : masksAt 50001 = true ∧ masksAt 50050 = true ∧ masksAt 50099 = true ∧ masksAt 20000 = true ∧
+    masksAt 10001 = true ∧ masksAt 50000 = false ∧ masksAt 20001 = false := by decide
+
 end C07
